@@ -7,12 +7,17 @@ package hpattern
 
 import (
 	"context"
+	"encoding/binary"
 	"fmt"
+	"math"
+	"os"
 	"sort"
 	"strings"
 	"testing"
 
+	"github.com/ozontech/seq-db/cache"
 	"github.com/ozontech/seq-db/conf"
+	"github.com/ozontech/seq-db/disk"
 	"github.com/ozontech/seq-db/frac"
 	"github.com/ozontech/seq-db/frac/token"
 	"github.com/ozontech/seq-db/parser"
@@ -144,6 +149,85 @@ type c13Case struct {
 	Tokens  []string `json:"tokens"`
 	Ordered bool     `json:"ordered"`
 	Split   []int    `json:"split,omitempty"` // block sizes
+	Layout  [][]int  `json:"layout,omitempty"` // kind disk: Layout[p][e] = tokens of the e-th table entry of the p-th physical block
+}
+
+// diskDict writes the sorted dictionary of one field into an index file the way the sealer lays it out (several
+// table entries may share one physical tokens block: StartIndex counts the tokens of the block before the entry)
+// and returns the REAL block loader over it plus the field's table.
+func diskDict(dir string, tokens []string, layout [][]int) (*token.BlockLoader, token.Table, func(), error) {
+	file, err := os.CreateTemp(dir, "dict-*.index")
+	if err != nil {
+		return nil, nil, nil, err
+	}
+	closeFn := func() { file.Close(); os.Remove(file.Name()) }
+	if _, err := file.Seek(16, 0); err != nil { // room for position and length of the registry
+		closeFn()
+		return nil, nil, nil, err
+	}
+	w := disk.NewBlocksWriter(file)
+	if _, err := w.WriteBlock("info", []byte("info"), false, 0, 0, 0); err != nil {
+		closeFn()
+		return nil, nil, nil, err
+	}
+	fd := &token.FieldData{MinVal: tokens[0]}
+	next, tid := 0, uint32(1)
+	for _, physical := range layout {
+		var data []byte
+		startIndex := uint32(0)
+		for _, n := range physical {
+			e := &token.TableEntry{StartIndex: startIndex, StartTID: tid, BlockIndex: w.GetBlockIndex(), ValCount: uint32(n), MaxVal: tokens[next+n-1]}
+			if len(fd.Entries) == 0 {
+				e.MinVal = tokens[0]
+			}
+			fd.Entries = append(fd.Entries, e)
+			for _, tok := range tokens[next : next+n] {
+				data = binary.LittleEndian.AppendUint32(data, uint32(len(tok)))
+				data = append(data, tok...)
+			}
+			data = binary.LittleEndian.AppendUint32(data, math.MaxUint32)
+			next += n
+			tid += uint32(n)
+			startIndex += uint32(n)
+		}
+		if _, err := w.WriteBlock("tokens", data, false, 0, 0, 0); err != nil {
+			closeFn()
+			return nil, nil, nil, err
+		}
+	}
+	if next != len(tokens) {
+		closeFn()
+		return nil, nil, nil, fmt.Errorf("layout %v covers %d tokens of %d", layout, next, len(tokens))
+	}
+	w.WriteEmptyBlock()
+	if err := w.WriteBlocksRegistry(); err != nil {
+		closeFn()
+		return nil, nil, nil, err
+	}
+	reader := disk.NewIndexReader(disk.NewReadLimiter(1, nil), file, cache.NewCache[[]byte](nil, nil))
+	loader := token.NewBlockLoader("c13", &reader, cache.NewCache[*token.CacheEntry](nil, nil))
+	return loader, token.Table{"f": fd}, closeFn, nil
+}
+
+// diskSearch: the glue of the sealed index on the real provider: SelectEntries(field, hint) -> token.NewProvider over
+// the selected entries (block loader over the index file) -> pattern.Search.
+func diskSearch(loader *token.BlockLoader, table token.Table, tokens []string, leaf parser.Token) ([]string, error) {
+	entries := table.SelectEntries(parser.GetField(leaf), parser.GetHint(leaf))
+	if len(entries) == 0 {
+		return nil, nil
+	}
+	tids, err := pattern.Search(context.Background(), leaf, token.NewProvider(loader, entries))
+	if err != nil {
+		return nil, err
+	}
+	var got []string
+	for _, tid := range tids {
+		if tid < 1 || int(tid) > len(tokens) {
+			return nil, fmt.Errorf("search returned TID %d outside 1..%d", tid, len(tokens))
+		}
+		got = append(got, tokens[tid-1])
+	}
+	return got, nil
 }
 
 // runCase executes one case on the real code and returns (got, want, err).
@@ -172,6 +256,17 @@ func runCase(c c13Case) (got, want []string, err error) {
 		}
 	}
 	ctx := context.Background()
+	if c.Kind == "disk" {
+		dir := vfrac.MkTmp("c13d")
+		defer os.RemoveAll(dir)
+		loader, table, closeFn, err := diskDict(dir, c.Tokens, c.Layout)
+		if err != nil {
+			panic(err)
+		}
+		defer closeFn()
+		got, err = diskSearch(loader, table, c.Tokens, leaf)
+		return got, want, err
+	}
 	if c.Kind != "layout" {
 		tp := &sliceProvider{tokens: c.Tokens, first: 1, ordered: c.Ordered}
 		if len(c.Tokens) == 0 {
@@ -221,7 +316,12 @@ func runCase(c c13Case) (got, want []string, err error) {
 
 func judge(r *vlib.Run, c c13Case) {
 	r.Add("evaluations", 1)
-	got, want, err := runCase(c)
+	var got, want []string
+	var err error
+	if p := vlib.Catch(func() { got, want, err = runCase(c) }); p != nil {
+		r.Violation(fmt.Sprintf("%s query=%q panic", c.Kind, c.Query), c, fmt.Sprintf("tokens=%q split=%v layout=%v: %v", c.Tokens, c.Split, c.Layout, p))
+		return
+	}
 	if err != nil {
 		r.Violation(fmt.Sprintf("%s query=%q error", c.Kind, c.Query), c, err.Error())
 		return
@@ -235,11 +335,14 @@ func judge(r *vlib.Run, c c13Case) {
 		if c.Kind == "layout" {
 			sig += fmt.Sprintf(" tokens=%q split=%v", c.Tokens, c.Split)
 		}
+		if c.Kind == "disk" {
+			sig += fmt.Sprintf(" tokens=%q layout=%v", c.Tokens, c.Layout)
+		}
 		r.Violation(sig, c,
 			fmt.Sprintf("got %q want %q", got, want))
 	}
 	if len(want) > 0 && len(want) < len(c.Tokens) {
-		r.Distinct("nontrivial", c.Kind+"|"+c.Query+"|"+strings.Join(c.Tokens, ",")+fmt.Sprint(c.Split, c.Ordered))
+		r.Distinct("nontrivial", c.Kind+"|"+c.Query+"|"+strings.Join(c.Tokens, ",")+fmt.Sprint(c.Split, c.Layout, c.Ordered))
 	}
 	r.Distinct("outcomes", c.Kind+"|"+strings.Join(gs, ","))
 }
@@ -460,11 +563,48 @@ func TestVerifC13(t *testing.T) {
 			}
 		})
 	}
+	// ---- (3b) the same glue on the REAL token provider and block loader over an index file: one 7-token dictionary
+	// in EVERY two-level layout (every split into physical blocks x every split of each block into table entries,
+	// so entries that continue a block - StartIndex > 0 - occur at every position), exact, prefix and wildcard filters
+	{
+		dtoks := []string{"a", "ab", "aba", "abb", "b", "ba", "bb"}
+		dqueries := []string{`f:"*"`, `f:"a*"`, `f:"ab*"`, `f:"abb*"`, `f:"b*"`, `f:"ba*"`, `f:"c*"`, `f:"*b"`, `f:"a*b"`, `f:"*a*"`, `f:[a, b]`, `f:(ab, ba]`}
+		for _, tk := range dtoks {
+			dqueries = append(dqueries, quoteFilter(tk))
+		}
+		var twoLevel [][][]int
+		allSplits(dtoks, func(split []int) {
+			// every way to split each physical block into entries
+			var rec func(bi int, cur [][]int)
+			rec = func(bi int, cur [][]int) {
+				if bi == len(split) {
+					cp := make([][]int, len(cur))
+					for i := range cur {
+						cp[i] = append([]int{}, cur[i]...)
+					}
+					twoLevel = append(twoLevel, cp)
+					return
+				}
+				blk := make([]string, split[bi])
+				allSplits(blk, func(inner []int) {
+					rec(bi+1, append(cur, append([]int{}, inner...)))
+				})
+			}
+			rec(0, nil)
+		})
+		vlib.Parallel(len(twoLevel), 0, func(i int) {
+			r.Add("layouts", 1)
+			r.Add("disk_layouts", 1)
+			for _, q := range dqueries {
+				judge(r, c13Case{Kind: "disk", Query: q, Tokens: dtoks, Ordered: true, Layout: twoLevel[i]})
+			}
+		})
+	}
 	c13Pairs(r, nil)
 	r.Sample(c13Case{Kind: "layout", Query: `f:"ab*"`, Tokens: []string{"a", "ab", "aba", "b"}, Ordered: true, Split: []int{1, 2, 1}})
 	ev := r.Get("evaluations")
 	r.Finish(t, "model_checking",
-		fmt.Sprintf("all patterns over {a,b,*} len<=%d x all tokens over {a,b} len<=%d (quoted and bare query forms, ordered and unordered provider); the same over {a, byte 0xff} len<=3 with case-sensitive parsing; all ranges over %d ends x 4 bracket forms; all sorted dictionaries of <=%d tokens from the 15 tokens of len<=3 x every split into consecutive blocks x all patterns len<=%d; the same over sub-dictionaries of 11 number tokens x 9 numeric ranges / prefixes whose ends share leading characters, and of 7 tokens of 70-73 bytes with a common prefix x 9 patterns; on a real active and sealed fraction every ordered pair of 2x wildcard patterns (len<=3) and 4 numeric ranges resolved in ONE search (p1 OR p2, p1 AND NOT p2) vs the reference. non-trivial = the case matches some but not all tokens", patLen, tokLen, len(ends), dictMax, layoutPatLen),
+		fmt.Sprintf("all patterns over {a,b,*} len<=%d x all tokens over {a,b} len<=%d (quoted and bare query forms, ordered and unordered provider); the same over {a, byte 0xff} len<=3 with case-sensitive parsing; all ranges over %d ends x 4 bracket forms; all sorted dictionaries of <=%d tokens from the 15 tokens of len<=3 x every split into consecutive blocks x all patterns len<=%d; the same over sub-dictionaries of 11 number tokens x 9 numeric ranges / prefixes whose ends share leading characters, and of 7 tokens of 70-73 bytes with a common prefix x 9 patterns; one 7-token dictionary written to an index file in EVERY two-level layout (physical blocks x table entries per block, entries continuing a block included) and searched through the real token.Provider / BlockLoader with 19 exact / prefix / wildcard / range filters; on a real active and sealed fraction every ordered pair of 2x wildcard patterns (len<=3) and 4 numeric ranges resolved in ONE search (p1 OR p2, p1 AND NOT p2) vs the reference. non-trivial = the case matches some but not all tokens", patLen, tokLen, len(ends), dictMax, layoutPatLen),
 		map[string]any{
 			"states":                        r.DistinctCount("outcomes"),
 			"transitions":                   ev,
